@@ -103,6 +103,13 @@ def run_cli_to_text(ctx, argv, name):
     argv = list(argv)
     if _CALLS[0] % 5 == 0:
         argv = argv[:1] + ['-v', '--logfile', os.path.join(ctx.workdir, 'pest.log')] + argv[1:]
+    if argv[0] == 'pestfiles' and _CALLS[0] % 4 == 2:
+        # the documented -c option (configuration values for the PEST files)
+        cfg = os.path.join(ctx.workdir, 'pest_configuration.yml')
+        with open(cfg, 'w') as f:
+            f.write('model_command: bash simulate.sh\nnoptmax: 30\nprecision: 8\n')
+        argv = argv + ['-c', cfg]
+        ctx.rec.hit('pestfiles-calls-with-a-configuration-file')
     if _CALLS[0] % 3 == 0:
         # the default: output on standard output
         buf = io.StringIO()
